@@ -4,6 +4,7 @@
 package sprop
 
 import (
+	"errors"
 	"fmt"
 	"time"
 
@@ -102,6 +103,10 @@ func (s *Spec) exec(c *scen.Case, next func(r *scen.Runner) (scen.Step, bool), r
 			return harn.PanicFailure("no-panic", fmt.Sprintf("resume %d", i+1), p)
 		}
 		if serr != nil {
+			var re *scen.RestartError
+			if errors.As(serr, &re) {
+				return harn.Failf("session-reads-back", "before resume %d: %v", i+1, serr)
+			}
 			return harn.Failf("harness-setup", "step %d does not set up: %v", i+1, serr)
 		}
 		if f := s.after(r, sp); f != nil {
